@@ -385,7 +385,7 @@ def make_env_from(b):
                      transmitter=tr, initial_cash=case.get("deposit", 1000.0), broker_fees=fees,
                      latency=b.latency, steps_delay=case.get("delay", 0),
                      episode_length=case.get("episode_length"), sampling_span=case.get("sampling_span"),
-                     fit_transformers=(case.get("state", ["rec"])[0] == "library"))
+                     fit_transformers=(case.get("state", ["rec"])[0] == "library" and (len(case["state"]) < 4 or bool(case["state"][3]))))
     if case.get("readd_timesteps"):
         # The user still holds the transmitter and registers timesteps again after the environment was built. They are
         # all already on the grid (duplicates are in the domain, C04), so whether late additions are picked up at
